@@ -618,6 +618,162 @@ theorem nodup_append_disjoint {pre env : Env} (h : (keys (pre ++ env)).Nodup) {k
   simp only [keys, List.map_append, List.nodup_append] at h
   exact h.2.2 k (mem_keys h1) k (mem_keys h2) rfl
 
+
+theorem EnvFn.cons {env : Env} (h : EnvFn env) {k : Key} {x : Val} (hk : k ∉ keys env) : EnvFn ((k, x) :: env) := by
+  intro k' a b ha hb
+  rcases List.mem_cons.mp ha with ha | ha <;> rcases List.mem_cons.mp hb with hb | hb
+  · cases ha; cases hb; rfl
+  · cases ha; exact absurd (mem_keys hb) hk
+  · cases hb; exact absurd (mem_keys ha) hk
+  · exact h k' a b ha hb
+
+/-- `env'` extends `env` by bindings of pairwise different keys that `env` does not bind -/
+def FExt (env env' : Env) : Prop :=
+  ∃ pre, env' = pre ++ env ∧ (keys pre).Nodup ∧ ∀ b ∈ pre, env.lookup b.1 = none
+
+theorem FExt.refl (env : Env) : FExt env env := ⟨[], rfl, by simp [keys], by simp⟩
+
+theorem lookup_append_none {a b : Env} {k : Key} (h : (a ++ b).lookup k = none) :
+    a.lookup k = none ∧ b.lookup k = none := by
+  rw [List.lookup_append] at h
+  cases ha : List.lookup k a with
+  | none => rw [ha] at h; exact ⟨rfl, by simpa using h⟩
+  | some x => rw [ha] at h; simp at h
+
+theorem FExt.trans {a b c : Env} (h1 : FExt a b) (h2 : FExt b c) : FExt a c := by
+  obtain ⟨p1, rfl, hn1, hf1⟩ := h1
+  obtain ⟨p2, rfl, hn2, hf2⟩ := h2
+  refine ⟨p2 ++ p1, by simp, ?_, ?_⟩
+  · simp only [keys, List.map_append, List.nodup_append]
+    refine ⟨hn2, hn1, ?_⟩
+    intro k hk2 k' hk1 heq
+    subst heq
+    obtain ⟨b, hb, rfl⟩ := List.mem_map.mp hk2
+    exact not_mem_keys_of_lookup_none (lookup_append_none (hf2 b hb)).1 hk1
+  · intro b hb
+    rcases List.mem_append.mp hb with hb | hb
+    · exact (lookup_append_none (hf2 b hb)).2
+    · exact hf1 b hb
+
+theorem FExt.cons {env : Env} {k : Key} {x : Val} (h : env.lookup k = none) : FExt env ((k, x) :: env) :=
+  ⟨[(k, x)], rfl, by simp [keys], by intro b hb; simp only [List.mem_singleton] at hb; subst hb; exact h⟩
+
+theorem EnvFn.of_fext {env env' : Env} (h : EnvFn env) (hx : FExt env env') : EnvFn env' := by
+  obtain ⟨pre, rfl, hn, hf⟩ := hx
+  intro k a b ha hb
+  rcases List.mem_append.mp ha with ha | ha <;> rcases List.mem_append.mp hb with hb | hb
+  · exact EnvFn.of_nodup hn k a b ha hb
+  · exact absurd (mem_keys hb) (not_mem_keys_of_lookup_none (hf _ ha))
+  · exact absurd (mem_keys ha) (not_mem_keys_of_lookup_none (hf _ hb))
+  · exact h k a b ha hb
+
+theorem evalTerm_fext (w : World) (t : Term) :
+    ∀ cp env rs, evalTerm w cp t env = .ok rs → ∀ p ∈ rs, FExt env p.1 := by
+  induction t with
+  | var v =>
+    intro cp env rs h p hp
+    simp only [evalTerm] at h; cases h
+    rcases evalVar_mem hp with ⟨y, _, rfl⟩ | ⟨hn, y, hy, rfl⟩
+    · exact FExt.refl _
+    · exact FExt.cons hn
+  | lit id x =>
+    intro cp env rs h p hp
+    rcases evalLit_cases w cp id x env with ⟨y, _, he⟩ | ⟨hn, he⟩
+    · rw [he] at h; cases h; simp only [List.mem_singleton] at hp; subst hp; exact FExt.refl _
+    · rw [he] at h; cases h; simp only [List.mem_singleton] at hp; subst hp; exact FExt.cons hn
+  | attr t n ih =>
+    intro cp env rs h p hp
+    rw [evalTerm_attr] at h
+    obtain ⟨rs0, h0, h⟩ := bind_ok h
+    obtain ⟨g, _, rfl⟩ := mapVal_ok h
+    simp only [List.mem_map] at hp; obtain ⟨r, hr, rfl⟩ := hp
+    exact ih false env rs0 h0 r hr
+  | index t i ih =>
+    intro cp env rs h p hp
+    rw [evalTerm_index] at h
+    obtain ⟨rs0, h0, h⟩ := bind_ok h
+    obtain ⟨g, _, rfl⟩ := mapVal_ok h
+    simp only [List.mem_map] at hp; obtain ⟨r, hr, rfl⟩ := hp
+    exact ih false env rs0 h0 r hr
+  | flatten t ih =>
+    intro cp env rs h p hp
+    simp only [evalTerm] at h
+    obtain ⟨rs0, h0, h⟩ := bind_ok h
+    obtain ⟨g, hg, rfl⟩ := flatMapM_ok h
+    simp only [List.mem_flatMap] at hp; obtain ⟨r, hr, hp⟩ := hp
+    obtain ⟨xs, _, h2⟩ := bind_ok (hg r hr)
+    rw [← pure_ok h2] at hp
+    simp only [List.mem_map] at hp; obtain ⟨x, _, rfl⟩ := hp
+    exact ih false env rs0 h0 r hr
+
+theorem evalCmpCore_fext {w : World} {f s : Term} {cmb : Val → Val → Except Err Bool} {env : Env}
+    {rs : List (Env × Bool)} (h : evalCmpCore w f s cmb env = .ok rs) : ∀ p ∈ rs, FExt env p.1 := by
+  obtain ⟨r1, g, h1, rfl, hg⟩ := evalCmpCore_inv h
+  intro p hp
+  simp only [List.mem_flatMap] at hp
+  obtain ⟨p1, hp1, hp⟩ := hp
+  obtain ⟨r2, c, h2, _, hgp⟩ := hg p1 hp1
+  rw [hgp] at hp
+  simp only [List.mem_map] at hp
+  obtain ⟨p2, hp2, rfl⟩ := hp
+  exact (evalTerm_fext w f false env r1 h1 p1 (List.mem_filter.mp hp1).1).trans
+    (evalTerm_fext w s false p1.1 r2 h2 p2 (List.mem_filter.mp hp2).1)
+
+theorem evalCmp_fext {w : World} {l r : Term} {op : Val → Val → Except Err Bool} {env : Env}
+    {rs : List (Env × Bool)} (h : evalCmp w l r op env = .ok rs) : ∀ p ∈ rs, FExt env p.1 := by
+  rcases evalCmp_eq w l r op env with he | he
+  · rw [he] at h; exact evalCmpCore_fext h
+  · rw [he] at h; exact evalCmpCore_fext h
+
+/-- evaluation only ever ADDS bindings of keys that were unbound -/
+theorem eval_fext (w : World) (e : Expr) :
+    e.Fc = true → ∀ env rs, eval w e env = .ok rs → ∀ p ∈ rs, FExt env p.1 := by
+  induction e with
+  | cmp op l r => intro _ env rs h; simp only [eval] at h; exact evalCmp_fext h
+  | contains c i => intro _ env rs h; simp only [eval] at h; exact evalCmp_fext h
+  | truth t =>
+    intro _ env rs h p hp
+    obtain ⟨rs0, h0, rfl⟩ := eval_truth_inv h
+    simp only [List.mem_map] at hp; obtain ⟨r, hr, rfl⟩ := hp
+    exact evalTerm_fext w t true env rs0 h0 r hr
+  | hasType t c =>
+    intro _ env rs h p hp
+    obtain ⟨rs0, h0, rfl⟩ := eval_hasType_inv h
+    simp only [List.mem_map] at hp; obtain ⟨r, hr, rfl⟩ := hp
+    exact evalTerm_fext w t false env rs0 h0 r hr
+  | and l r ihl ihr =>
+    intro hF env rs h p hp
+    simp only [Expr.Fc, Bool.and_eq_true] at hF
+    obtain ⟨ls, g, h0, rfl, hg⟩ := eval_and_inv h
+    simp only [List.mem_flatMap] at hp; obtain ⟨a, ha, hp⟩ := hp
+    have hxa := ihl hF.1 env ls h0 a ha
+    cases ha2 : a.2 with
+    | true => exact hxa.trans (ihr hF.2 a.1 _ ((hg a ha).1 ha2) p hp)
+    | false =>
+      rw [(hg a ha).2 ha2, List.mem_singleton] at hp; subst hp
+      exact hxa
+  | elseIf l r ihl ihr =>
+    intro hF env rs h p hp
+    simp only [Expr.Fc, Bool.and_eq_true] at hF
+    obtain ⟨ls, g, h0, rfl, hg⟩ := eval_elseIf_inv h
+    simp only [List.mem_flatMap] at hp; obtain ⟨a, ha, hp⟩ := hp
+    have hxa := ihl hF.1 env ls h0 a ha
+    cases ha2 : a.2 with
+    | false => exact hxa.trans (ihr hF.2 a.1 _ ((hg a ha).2 ha2) p hp)
+    | true =>
+      rw [(hg a ha).1 ha2, List.mem_singleton] at hp; subst hp
+      exact hxa
+  | not e ih =>
+    intro hF env rs h p hp
+    simp only [Expr.Fc] at hF
+    obtain ⟨rs0, h0, rfl⟩ := eval_not_inv h
+    simp only [List.mem_map] at hp; obtain ⟨r, hr, rfl⟩ := hp
+    exact ih hF env rs0 h0 r hr
+  | union l r _ _ => intro hF; simp [Expr.Fc] at hF
+  | exists_ v e _ => intro hF; simp [Expr.Fc] at hF
+  | forAll v e _ => intro hF; simp [Expr.Fc] at hF
+
+
 /-- what the main induction establishes for the result cells `rs` of `eval w e env` -/
 structure QInv (w : World) (e : Expr) (env : Env) (rs : List (Env × Bool)) : Prop where
   /-- true cells extend `env` by bindings of `e`'s variables to domain elements (and of literal nodes) -/
@@ -717,7 +873,7 @@ theorem exists_qinv (w : World) (hnd : ∀ v, (w.dom v).Nodup) (q : VarId) (φ :
     (hln : LitNodup φ) (B : List Key)
     (hbq : Key.var q ∈ Expr.bK true φ ∧ Key.var q ∈ Expr.bK false φ)
     (hB : ∀ v ∈ φ.vars, v = q ∨ Key.var v ∈ B)
-    (env : Env) (out : List (Env × Bool)) (hk : (keys env).Nodup)
+    (env : Env) (out : List (Env × Bool)) (hk : EnvFn env)
     (hBenv : ∀ k ∈ B, (env.lookup k).isSome = true) (hq : env.lookup (.var q) = none)
     (hlf : LitFresh φ.nodes env) (h : eval w (.exists_ q φ) env = .ok out) :
     QInv w (.exists_ q φ) env out := by
@@ -726,14 +882,17 @@ theorem exists_qinv (w : World) (hnd : ∀ v, (w.dom v).Nodup) (q : VarId) (φ :
   have hext := eval_ext w φ hF env rs0 h0
   have hfv : (Expr.exists_ q φ).fvars = φ.vars.filter (· != q) := by simp only [Expr.fvars, Expr.fvars_Fc hF]
   -- facts about one true cell of `rs0`
-  have hcell : ∀ env1 : Env, (env1, true) ∈ rs0 → ∃ pre x, env1 = pre ++ env ∧ (keys env1).Nodup ∧
+  have hcell : ∀ env1 : Env, (env1, true) ∈ rs0 → ∃ pre x, env1 = pre ++ env ∧ EnvFn env1 ∧
       (Key.var q, x) ∈ pre ∧ x ∈ w.dom q ∧
       (∀ b ∈ pre, ∀ v, b.1 = Key.var v → v = q ∧ b.2 = x) ∧
       (∀ b ∈ pre, ∀ v, b.1 = Key.var v → v ∈ φ.vars ∧ b.2 ∈ w.dom v) := by
     intro env1 hm
-    obtain ⟨pre, hpe, hprop, hnod⟩ := hext _ hm
-    have hnd1 : (keys env1).Nodup := hnod hk
-    simp only at hpe
+    obtain ⟨pre, hpe, hprop, _⟩ := hext _ hm
+    have hnd1 : EnvFn env1 := hk.of_fext (eval_fext w φ hF env rs0 h0 _ hm)
+    obtain ⟨pre', hpe', _, hfresh⟩ := eval_fext w φ hF env rs0 h0 _ hm
+    simp only at hpe hpe'
+    have : pre = pre' := List.append_cancel_right (hpe.symm.trans hpe')
+    subst this
     obtain ⟨x, hx⟩ := isSome_mem (bK_sound w φ hF env rs0 h0 _ hm true rfl _ hbq.1)
     simp only at hx
     have hxp : (Key.var q, x) ∈ pre := by
@@ -751,12 +910,12 @@ theorem exists_qinv (w : World) (hnd : ∀ v, (w.dom v).Nodup) (q : VarId) (φ :
     rcases hB v (hpv _ hb v rfl).1 with hvq | hvB
     · subst hvq
       refine ⟨rfl, ?_⟩
-      have h1 := lookup_of_mem_nodup hnd1 (hpe ▸ List.mem_append_left env hb)
-      have h2 := lookup_of_mem_nodup hnd1 (hpe ▸ List.mem_append_left env hxp)
-      rw [h1] at h2; cases h2; rfl
+      exact hnd1 _ _ _ (hpe ▸ List.mem_append_left env hb) (hpe ▸ List.mem_append_left env hxp)
     · exfalso
-      obtain ⟨z, hz⟩ := isSome_mem (hBenv _ hvB)
-      exact nodup_append_disjoint (hpe ▸ hnd1) hb hz
+      have h1 := hfresh _ hb
+      have h2 := hBenv _ hvB
+      simp only at h1
+      rw [h1] at h2; cases h2
   refine ⟨?_, ?_, ?_, ?_⟩
   · intro p hp hpt
     obtain ⟨pre, x, hpe, _, _, _, _, hpv⟩ := hcell p.1 (hsub p hp).2
@@ -769,7 +928,7 @@ theorem exists_qinv (w : World) (hnd : ∀ v, (w.dom v).Nodup) (q : VarId) (φ :
     · left; exact hb
   · intro p hp hpt
     obtain ⟨pre, x, hpe, hnd1, _⟩ := hcell p.1 (hsub p hp).2
-    exact EnvFn.of_nodup hnd1
+    exact hnd1
   · -- soundness
     intro p hp hpt τ b hcov hag hs
     have hm := (hsub p hp).2
@@ -940,7 +1099,7 @@ theorem mem_restrict {env : Env} {ids : List Key} {b : Key × Val} :
 results of `forAll q φ` are sound and complete for `∀ q ∈ dom q, φ` -/
 theorem forAll_qinv (w : World) (hnd : ∀ v, (w.dom v).Nodup) (q : VarId) (φ : Expr) (hF : φ.Fc = true)
     (hln : LitNodup φ) (hall : ∀ k ∈ φ.nodes, k ∈ Expr.bK true φ)
-    (env : Env) (out : List (Env × Bool)) (hk : (keys env).Nodup)
+    (env : Env) (out : List (Env × Bool)) (hk : EnvFn env)
     (hq : env.lookup (.var q) = none) (hlf : LitFresh φ.nodes env)
     (h : eval w (.forAll q φ) env = .ok out) :
     QInv w (.forAll q φ) env out := by
@@ -951,9 +1110,7 @@ theorem forAll_qinv (w : World) (hnd : ∀ v, (w.dom v).Nodup) (q : VarId) (φ :
   have hxsd : ∀ x ∈ xs, x ∈ w.dom q := fun x hx => by rw [hdom]; exact List.mem_cons_of_mem _ hx
   let others := φ.nodes.filter (· != Key.var q)
   let env0 : Env := (Key.var q, x0) :: env
-  have hk0 : (keys env0).Nodup := by
-    simp only [env0, keys, List.map_cons, List.nodup_cons]
-    exact ⟨not_mem_keys_of_lookup_none hq, hk⟩
+  have hk0 : EnvFn env0 := hk.cons (not_mem_keys_of_lookup_none hq)
   have hlf0 : LitFresh φ.nodes env0 := by
     intro id hid
     show List.lookup (Key.lit id) ((Key.var q, x0) :: env) = none
@@ -962,14 +1119,14 @@ theorem forAll_qinv (w : World) (hnd : ∀ v, (w.dom v).Nodup) (q : VarId) (φ :
   have hcell : ∀ c ∈ c0, c.2 = true →
       (∃ pre0, c.1 = pre0 ++ env0 ∧ (∀ b ∈ pre0, (∀ v, b.1 = Key.var v → v ∈ φ.vars ∧ b.2 ∈ w.dom v) ∧
           (∀ id, b.1 = Key.lit id → (id, b.2) ∈ φ.lits))) ∧
-      (keys c.1).Nodup ∧ (∀ k ∈ φ.nodes, k ≠ Key.var q → ∃ y, (k, y) ∈ restrict c.1 others) := by
+      EnvFn c.1 ∧ (∀ k ∈ φ.nodes, k ≠ Key.var q → ∃ y, (k, y) ∈ restrict c.1 others) := by
     intro c hc hct
-    obtain ⟨pre0, hpe, hprop, hnod⟩ := eval_ext w φ hF env0 c0 h0 c hc
+    obtain ⟨pre0, hpe, hprop, _⟩ := eval_ext w φ hF env0 c0 h0 c hc
     obtain ⟨pre1, hpe1, hlit⟩ := eval_lit w φ hF env0 c0 h0 c hc
     have : pre1 = pre0 := List.append_cancel_right (hpe1.symm.trans hpe)
     subst this
     refine ⟨⟨pre1, hpe, fun b hb => ⟨fun v hv => ⟨Expr.mem_nodes_var.mp (hv ▸ (hprop b hb).1), (hprop b hb).2 v hv⟩,
-      hlit b hb⟩⟩, hnod hk0, ?_⟩
+      hlit b hb⟩⟩, hk0.of_fext (eval_fext w φ hF env0 c0 h0 c hc), ?_⟩
     intro k hkn hkq
     obtain ⟨y, hy⟩ := isSome_mem (bK_sound w φ hF env0 c0 h0 c hc true hct k (hall k hkn))
     exact ⟨y, mem_restrict.mpr ⟨hy, List.mem_filter.mpr ⟨hkn, by simp [hkq]⟩⟩⟩
@@ -995,7 +1152,7 @@ theorem forAll_qinv (w : World) (hnd : ∀ v, (w.dom v).Nodup) (q : VarId) (φ :
         intro k' a b ha hb
         have ha' : (k', a) ∈ c.1 := hsub c hc hct _ ((List.mem_append.mp ha).symm)
         have hb' : (k', b) ∈ c.1 := hsub c hc hct _ ((List.mem_append.mp hb).symm)
-        exact EnvFn.of_nodup hnd1 k' a b ha' hb'
+        exact hnd1 k' a b ha' hb'
       exact hfn.lookup (List.mem_append_right _ hm)
     constructor
     · intro v hv
@@ -1030,8 +1187,8 @@ theorem forAll_qinv (w : World) (hnd : ∀ v, (w.dom v).Nodup) (q : VarId) (φ :
     intro v y hm
     by_cases hvq : v = q
     · subst hvq
-      have h1 := lookup_of_mem_nodup hnd1 hm
-      have h2 := lookup_of_mem_nodup hnd1 (hpe ▸ (List.mem_append_right pre0 (List.mem_cons_self) : (Key.var v, x0) ∈ pre0 ++ env0))
+      have h1 := hnd1.lookup hm
+      have h2 := hnd1.lookup (hpe ▸ (List.mem_append_right pre0 (List.mem_cons_self) : (Key.var v, x0) ∈ pre0 ++ env0))
       rw [h1] at h2; cases h2
       exact lookup_cons_self
     · rw [lookup_cons_ne hvq]
@@ -1078,7 +1235,7 @@ theorem forAll_qinv (w : World) (hnd : ∀ v, (w.dom v).Nodup) (q : VarId) (φ :
     obtain ⟨c, hc, hct, rfl⟩ := hcand sol (hfin1 sol hsol).1
     obtain ⟨_, hnd1, _⟩ := hcell c hc hct
     intro k a b ha hb
-    exact EnvFn.of_nodup hnd1 k a b (hsub c hc hct _ (List.mem_append.mp ha)) (hsub c hc hct _ (List.mem_append.mp hb))
+    exact hnd1 k a b (hsub c hc hct _ (List.mem_append.mp ha)) (hsub c hc hct _ (List.mem_append.mp hb))
   · -- soundness
     intro p hp _ τ b hcov hag hs
     obtain ⟨sol, hsol, rfl⟩ := List.mem_map.mp hp
@@ -1184,7 +1341,7 @@ theorem litNodup_cons_var {q : VarId} {ks : List Key} (h : (litIds (Key.var q ::
 
 /-- **main induction**: on the fragment the result cells are sound and complete for the first-order reading -/
 theorem ql_qinv (w : World) (hnd : ∀ v, (w.dom v).Nodup) (e : Expr) : ∀ A B, e.Ql A B = true → LitNodup e →
-    ∀ env rs, (keys env).Nodup → (∀ k ∈ B, (env.lookup k).isSome = true) →
+    ∀ env rs, EnvFn env → (∀ k ∈ B, (env.lookup k).isSome = true) →
       (∀ v, (env.lookup (.var v)).isSome = true → v ∈ A) → LitFresh e.nodes env →
       eval w e env = .ok rs → QInv w e env rs := by
   induction e with
@@ -1198,8 +1355,8 @@ theorem ql_qinv (w : World) (hnd : ∀ v, (w.dom v).Nodup) (e : Expr) : ∀ A B,
     -- the invariant for the rest of the chain, from each true cell of `l`
     have hrest : ∀ a ∈ ls, a.2 = true → QInv w e' a.1 (g a) := by
       intro a ha hat
-      obtain ⟨pre, hpe, hprop, hnod⟩ := hextl a ha
-      apply ih (A ++ l.vars) (B ++ Expr.bK true l) hQ' hnr a.1 (g a) (hnod hk)
+      obtain ⟨pre, hpe, hprop, _⟩ := hextl a ha
+      apply ih (A ++ l.vars) (B ++ Expr.bK true l) hQ' hnr a.1 (g a) (hk.of_fext (eval_fext w l hFl env ls h0 a ha))
       · intro k hkm
         rcases List.mem_append.mp hkm with hkm | hkm
         · exact (hextl a ha).isSome (hB k hkm)
@@ -1347,13 +1504,6 @@ theorem evalTerm_fresh (w : World) (t : Term) :
     simp only [List.mem_map] at hp; obtain ⟨x, _, rfl⟩ := hp
     exact ih false env rs0 h0 r hr
 
-theorem EnvFn.cons {env : Env} (h : EnvFn env) {k : Key} {x : Val} (hk : k ∉ keys env) : EnvFn ((k, x) :: env) := by
-  intro k' a b ha hb
-  rcases List.mem_cons.mp ha with ha | ha <;> rcases List.mem_cons.mp hb with hb | hb
-  · cases ha; cases hb; rfl
-  · cases ha; exact absurd (mem_keys hb) hk
-  · cases hb; exact absurd (mem_keys ha) hk
-  · exact h k' a b ha hb
 
 /-- **selection, soundness** for FUNCTIONAL row bindings (a key may be listed twice, with one value): `select_sound`
 of `Lemmas/EqlF1.lean` with `EnvFn` in place of duplicate-free keys -/
@@ -1671,7 +1821,7 @@ theorem sound_complete_Ql (w : World) (sel : List Term) (c : SExpr)
     (h2 : solutions w { sel := sel, cond := some c } = .ok rows') :
     ∀ r, r ∈ rows ↔ r ∈ rows' :=
   sound_complete_of_qinv w sel c (fun v hv => (ql_qvars _ _ _ hQ v hv).2)
-    (fun rs hrs => ql_qinv w hnd (build c) [] [] hQ hlit [] rs List.nodup_nil (by simp) (by simp) (fun _ _ => rfl) hrs)
+    (fun rs hrs => ql_qinv w hnd (build c) [] [] hQ hlit [] rs (fun _ _ _ h => by cases h) (by simp) (by simp) (fun _ _ => rfl) hrs)
     hsel hms hsq hnd hne h1 h2
 
 /-! ## Q9. And-TREES of quantifier-free conditions and quantifiers (`Expr.Qt`) -/
@@ -1679,7 +1829,6 @@ theorem sound_complete_Ql (w : World) (sel : List Term) (c : SExpr)
 /-- `QInv` plus what a conjunct evaluated LATER needs to know about the rows it meets -/
 structure QInv2 (w : World) (e : Expr) (env : Env) (rs : List (Env × Bool)) : Prop extends QInv w e env rs where
   keysIn : ∀ p ∈ rs, p.2 = true → ∃ pre, p.1 = pre ++ env ∧ ∀ b ∈ pre, b.1 ∈ e.nodes
-  nodup : e.noForAll = true → (keys env).Nodup → ∀ p ∈ rs, p.2 = true → (keys p.1).Nodup
   tbinds : ∀ p ∈ rs, p.2 = true → ∀ k ∈ e.tb, (p.1.lookup k).isSome = true
 
 theorem Expr.noForAll_Fc {e : Expr} (h : e.Fc = true) : e.noForAll = true := by
@@ -1718,9 +1867,9 @@ theorem mem_fvars_vars {e : Expr} {v : VarId} (h : v ∈ e.fvars) : v ∈ e.vars
 
 /-- a quantifier-free condition of the cover fragment, as a leaf of the tree -/
 theorem fc_qinv2 (w : World) (e : Expr) (hF : e.Fc = true) (hln : LitNodup e) (env : Env) (rs : List (Env × Bool))
-    (hk : (keys env).Nodup) (hlf : LitFresh e.nodes env) (h : eval w e env = .ok rs) : QInv2 w e env rs := by
+    (hk : EnvFn env) (hlf : LitFresh e.nodes env) (h : eval w e env = .ok rs) : QInv2 w e env rs := by
   have hext := eval_ext w e hF env rs h
-  refine ⟨⟨?_, ?_, ?_, ?_⟩, ?_, ?_, ?_⟩
+  refine ⟨⟨?_, ?_, ?_, ?_⟩, ?_, ?_⟩
   · intro p hp _
     obtain ⟨pre, hpe, hprop, _⟩ := hext p hp
     refine ⟨⟨pre, hpe⟩, ?_⟩
@@ -1731,8 +1880,7 @@ theorem fc_qinv2 (w : World) (e : Expr) (hF : e.Fc = true) (hln : LitNodup e) (e
       exact ⟨Expr.mem_nodes_var.mp (hv ▸ (hprop b hb).1), (hprop b hb).2 v hv⟩
     · left; exact hb
   · intro p hp _
-    obtain ⟨pre, hpe, _, hnod⟩ := hext p hp
-    exact EnvFn.of_nodup (hnod hk)
+    exact hk.of_fext (eval_fext w e hF env rs h p hp)
   · intro p hp hpt τ b hcov hag hs
     rw [Expr.fvars_Fc hF] at hcov
     obtain ⟨pre, hpe, _, _⟩ := hext p hp
@@ -1750,9 +1898,6 @@ theorem fc_qinv2 (w : World) (e : Expr) (hF : e.Fc = true) (hln : LitNodup e) (e
   · intro p hp _
     obtain ⟨pre, hpe, hprop, _⟩ := hext p hp
     exact ⟨pre, hpe, fun b hb => (hprop b hb).1⟩
-  · intro _ hk p hp _
-    obtain ⟨pre, hpe, _, hnod⟩ := hext p hp
-    exact hnod hk
   · intro p hp hpt k hk
     rw [Expr.tb_Fc hF] at hk
     exact bK_sound w e hF env rs h p hp true hpt k hk
@@ -1781,7 +1926,7 @@ theorem qt_qvars (e : Expr) : ∀ A B, e.Qt A B = true → ∀ v ∈ e.qvars, v 
   | and l r ihl ihr =>
     intro A B h v hv
     simp only [Expr.Qt, Bool.and_eq_true, List.all_eq_true, Bool.not_eq_true'] at h
-    obtain ⟨⟨⟨hl, _⟩, hlr⟩, hr⟩ := h
+    obtain ⟨⟨hl, hlr⟩, hr⟩ := h
     simp only [Expr.qvars, List.mem_append] at hv
     simp only [Expr.fvars, List.mem_append, not_or]
     rcases hv with hv | hv
@@ -1813,14 +1958,14 @@ theorem qt_qvars (e : Expr) : ∀ A B, e.Qt A B = true → ∀ v ∈ e.qvars, v 
 
 /-- **main induction, and-trees** -/
 theorem qt_qinv2 (w : World) (hnd : ∀ v, (w.dom v).Nodup) (e : Expr) : ∀ A B, e.Qt A B = true → LitNodup e →
-    ∀ env rs, (keys env).Nodup → (∀ k ∈ B, (env.lookup k).isSome = true) →
+    ∀ env rs, EnvFn env → (∀ k ∈ B, (env.lookup k).isSome = true) →
       (∀ v, (env.lookup (.var v)).isSome = true → v ∈ A) → LitFresh e.nodes env →
       eval w e env = .ok rs → QInv2 w e env rs := by
   induction e with
   | and l r ihl ihr =>
     intro A B hQ hln env rs hk hB hA hlf h
     simp only [Expr.Qt, Bool.and_eq_true, List.all_eq_true, Bool.not_eq_true'] at hQ
-    obtain ⟨⟨⟨hQl, hnfa⟩, hlr⟩, hQr⟩ := hQ
+    obtain ⟨⟨hQl, hlr⟩, hQr⟩ := hQ
     obtain ⟨ls, g, h0, rfl, hg⟩ := eval_and_inv h
     obtain ⟨hnl, hnr, hd⟩ := litNodup_append hln
     have hL : QInv2 w l env ls :=
@@ -1828,7 +1973,7 @@ theorem qt_qinv2 (w : World) (hnd : ∀ v, (w.dom v).Nodup) (e : Expr) : ∀ A B
     have hrest : ∀ a ∈ ls, a.2 = true → QInv2 w r a.1 (g a) := by
       intro a ha hat
       obtain ⟨pre, hpe, hkeys⟩ := hL.keysIn a ha hat
-      apply ihr (A ++ l.vars) (B ++ l.tb) hQr hnr a.1 (g a) (hL.nodup hnfa hk a ha hat)
+      apply ihr (A ++ l.vars) (B ++ l.tb) hQr hnr a.1 (g a) (hL.fn a ha hat)
       · intro k hkm
         rcases List.mem_append.mp hkm with hkm | hkm
         · rw [hpe]; exact isSome_append_right (hB k hkm)
@@ -1856,7 +2001,7 @@ theorem qt_qinv2 (w : World) (hnd : ∀ v, (w.dom v).Nodup) (e : Expr) : ∀ A B
       have := hlr _ (hρ b hb)
       rw [heq] at this
       simp [mem_fvars_vars hv] at this
-    refine ⟨⟨?_, ?_, ?_, ?_⟩, ?_, ?_, ?_⟩
+    refine ⟨⟨?_, ?_, ?_, ?_⟩, ?_, ?_⟩
     · intro p hp hpt
       obtain ⟨a, ha, hat, hpa⟩ := hsrc p hp hpt
       obtain ⟨⟨pre', hpe'⟩, hmem⟩ := (hrest a ha hat).ext p hpa hpt
@@ -1917,10 +2062,6 @@ theorem qt_qinv2 (w : World) (hnd : ∀ v, (w.dom v).Nodup) (e : Expr) : ∀ A B
       rcases List.mem_append.mp hb with hb | hb
       · right; exact hk' b hb
       · left; exact hk1 b hb
-    · intro hnf hk' p hp hpt
-      simp only [Expr.noForAll, Bool.and_eq_true] at hnf
-      obtain ⟨a, ha, hat, hpa⟩ := hsrc p hp hpt
-      exact (hrest a ha hat).nodup hnf.2 (hL.nodup hnf.1 hk' a ha hat) p hpa hpt
     · intro p hp hpt k hkm
       obtain ⟨a, ha, hat, hpa⟩ := hsrc p hp hpt
       simp only [Expr.tb, List.mem_append] at hkm
@@ -1942,13 +2083,10 @@ theorem qt_qinv2 (w : World) (hnd : ∀ v, (w.dom v).Nodup) (e : Expr) : ∀ A B
     obtain ⟨rs0, h0, hfil⟩ := eval_exists_inv h
     have hsub := existsFilter_sub w q rs0 [] rs hfil
     have hext := eval_ext w φ hF env rs0 h0
-    refine ⟨hbase, ?_, ?_, ?_⟩
+    refine ⟨hbase, ?_, ?_⟩
     · intro p hp _
       obtain ⟨pre, hpe, hprop, _⟩ := hext _ (hsub p hp).2
       exact ⟨pre, hpe, fun b hb => List.mem_cons_of_mem _ (hprop b hb).1⟩
-    · intro _ hk' p hp _
-      obtain ⟨pre, hpe, _, hnod⟩ := hext _ (hsub p hp).2
-      exact hnod hk'
     · intro p hp _ k hkm
       exact bK_sound w φ hF env rs0 h0 _ (hsub p hp).2 true rfl k hkm
   | forAll q φ _ =>
@@ -1964,14 +2102,13 @@ theorem qt_qinv2 (w : World) (hnd : ∀ v, (w.dom v).Nodup) (e : Expr) : ∀ A B
       (hlf.mono fun k hk => List.mem_cons_of_mem _ hk) h
     obtain ⟨x0, xs, c0, final, hdom, h0, hfold, rfl⟩ := eval_forAll_inv hq h
     obtain ⟨hfin1, _⟩ := foldlM_filter_ok _ _ _ _ hfold
-    refine ⟨hbase, ?_, ?_, ?_⟩
+    refine ⟨hbase, ?_, ?_⟩
     · intro p hp _
       obtain ⟨sol, hsol, rfl⟩ := List.mem_map.mp hp
       obtain ⟨c, _, rfl⟩ := List.mem_map.mp (hfin1 sol hsol).1
       refine ⟨_, rfl, ?_⟩
       intro b hb
       exact List.mem_cons_of_mem _ (List.mem_filter.mp (mem_restrict.mp hb).2).1
-    · intro hnf; simp [Expr.noForAll] at hnf
     · intro p _ _ k hkm; simp [Expr.tb] at hkm
   | cmp op a b => intro A B hQ hln env rs hk _ _ hlf h; exact fc_qinv2 w _ (by simpa [Expr.Qt] using hQ) hln env rs hk hlf h
   | contains a b => intro A B hQ hln env rs hk _ _ hlf h; exact fc_qinv2 w _ (by simpa [Expr.Qt] using hQ) hln env rs hk hlf h
@@ -1987,7 +2124,7 @@ theorem qt_of_Fc {e : Expr} (h : e.Fc = true) : ∀ A B, e.Qt A B = true := by
   | and l r ihl ihr =>
     intro A B
     simp only [Expr.Fc, Bool.and_eq_true] at h
-    simp [Expr.Qt, ihl h.1, ihr h.2, Expr.noForAll_Fc h.1, Expr.qvars_Fc h.1]
+    simp [Expr.Qt, ihl h.1, ihr h.2, Expr.qvars_Fc h.1]
   | union l r _ _ => simp [Expr.Fc] at h
   | exists_ q e _ => simp [Expr.Fc] at h
   | forAll q e _ => simp [Expr.Fc] at h
@@ -2000,7 +2137,7 @@ theorem ql_qt (e : Expr) : ∀ A B, e.Ql A B = true → e.Qt A B = true := by
     intro A B h
     simp only [Expr.Ql, Expr.FcQ_eq, Bool.and_eq_true] at h
     simp only [Expr.Qt, Bool.and_eq_true]
-    refine ⟨⟨⟨qt_of_Fc h.1 A B, Expr.noForAll_Fc h.1⟩, by simp [Expr.qvars_Fc h.1]⟩, ?_⟩
+    refine ⟨⟨qt_of_Fc h.1 A B, by simp [Expr.qvars_Fc h.1]⟩, ?_⟩
     rw [Expr.tb_Fc h.1]; exact ih _ _ h.2
   | exists_ q φ _ => intro A B h; simpa [Expr.Ql, Expr.Qt] using h
   | forAll q φ _ => intro A B h; simpa [Expr.Ql, Expr.Qt] using h
@@ -2018,7 +2155,7 @@ theorem sound_complete_Qt (w : World) (sel : List Term) (c : SExpr)
     (h2 : solutions w { sel := sel, cond := some c } = .ok rows') :
     ∀ r, r ∈ rows ↔ r ∈ rows' :=
   sound_complete_of_qinv w sel c (fun v hv => (qt_qvars _ _ _ hQ v hv).2)
-    (fun rs hrs => (qt_qinv2 w hnd (build c) [] [] hQ hlit [] rs List.nodup_nil (by simp) (by simp)
+    (fun rs hrs => (qt_qinv2 w hnd (build c) [] [] hQ hlit [] rs (fun _ _ _ h => by cases h) (by simp) (by simp)
       (fun _ _ => rfl) hrs).toQInv)
     hsel hms hsq hnd hne h1 h2
 
